@@ -54,8 +54,24 @@ def run(chk, prog):
                         ok = only_calls(sg, "alloc::vec::Vec::new")
                 chk.require(ok, "R1", f, "fresh-root-has-no-signatures",
                             "a freshly constructed root is written with a signature list that is not Vec::new()", ctx.site(bb))
-            # write_file is the last effect: Ok only after it succeeded
+            # write_file is the last thing that can fail: once root.json has been replaced the command must
+            # not still end in an error ('a subcommand that exits with an error leaves the previous file
+            # intact') — no `?`, no unwrap/expect, no println! (it panics when stdout cannot be written)
             pos = ctx.track_call(bb).pos_edges(0)
+            if pos:
+                after = ctx.cfg.reach_from_edges(pos)
+                FALLIBLE = ("std::io::stdio::_print", "std::io::stdio::_eprint", "core::result::Result::unwrap",
+                            "core::result::Result::expect", "core::option::Option::unwrap", "core::option::Option::expect",
+                            "core::panicking::panic", "core::panicking::panic_fmt", "core::result::unwrap_failed",
+                            "core::ops::try_trait::FromResidual::from_residual")
+                bad = [(ab, ctx.body.blocks[ab].term) for ab in sorted(after)
+                       if ctx.body.blocks[ab].term is not None and ctx.body.blocks[ab].term.k == "call"
+                       and ctx.body.blocks[ab].term.is_call_to(*FALLIBLE)]
+                chk.require(not bad, "R1", f, "nothing-fails-after-the-write",
+                            "after root.json has been replaced the subcommand can still fail or panic (%s): it would exit "
+                            "with an error although the file was changed"
+                            % sorted(set((t_.resolved or t_.callee or "?").split("::")[-1] for _, t_ in bad))[:3],
+                            ctx.site(bad[0][0]) if bad else ctx.site(bb))
     chk.floor("R1", n_loaded, 7, "subcommands that write back a loaded root")
     # clear_sigs really clears
     cctx = ctx_of(prog, CLEAR)
